@@ -5,6 +5,7 @@ import Librfn.Lemmas.ConsoleTable
 import Librfn.Lemmas.ConsoleInv
 import Librfn.Lemmas.ConsoleEdit
 import Librfn.Lemmas.ConsoleRound
+import Librfn.Lemmas.ConsoleDeliver
 /-!
 # C15 — console line editing, tokenising and dispatch are exact and memory-safe
 
@@ -536,5 +537,80 @@ theorem unquoted_simple_split_partial (cmd : List Nat) (more : List (List Nat ×
 /-- non-vacuity of the round trip: `set  "a b"	'x"y' z` -/
 example : tokensOf (tokenizeMem ([115, 101, 116, 32, 32, 34, 97, 32, 98, 34, 9, 39, 120, 34, 121, 39, 32, 122, 0, 7, 7]) [none, none, none, none] 18) 18
     = [[115, 101, 116], [97, 32, 98], [120, 34, 121], [122]] := by decide
+
+/-! ## delivery: process_delivers_all, putchar_delivers_if_drained, eval_executes_once_and_completes
+
+`eaten` is the sequence of characters `console_run` has taken out of the ring; by `line_is_edit` the
+lines executed are a function of `eaten` alone, so "same `eaten`" means "same lines, same commands,
+each once".  `stuck` is the flag a fuel-bounded loop of the model would set if its fuel ran out. -/
+
+open Librfn.Lemmas.ConsoleDeliver in
+/-- **process_delivers_all**: in every reachable state in which the console is not inside a command,
+    `console_process(d)` terminates (the model's loop bound is never reached), leaves the console
+    waiting at its prompt with an empty ring, and `console_run` has consumed — in order, each once —
+    everything that was in the ring followed by `d` (if the ring had room for `d`; with the ring
+    drained, as between two `console_process` calls, always). -/
+theorem process_delivers_all (ops : List Op) (hok : ∀ op ∈ ops, OpOk op) (d : Byte) :
+    let w := runOps boot ops
+    w.s.fpt ≠ 2 →
+    (process w.tab w.s d).stuck = w.s.stuck ∧ (process w.tab w.s d).ring = [] ∧ (process w.tab w.s d).fpt = 1 ∧
+    (process w.tab w.s d).eaten = w.s.eaten ++ (ringPut w.s.ring d).1 ∧
+    (w.s.ring.length + 1 < ringLen → (process w.tab w.s d).eaten = w.s.eaten ++ w.s.ring ++ [d]) := by
+  intro w hf
+  obtain ⟨named, ht, h⟩ := runOps_dinv ops boot hok _ _ initTable_ok (init_dinv _)
+  obtain ⟨_, a2, a3, a4, a5, _⟩ := process_deliver _ w.tab named cmdUnknown w.s d ht rfl h hf
+  refine ⟨a5, a2, a3, a4, fun hroom => ?_⟩
+  rw [a4]
+  unfold ringPut
+  rw [if_neg (by omega)]
+  simp
+
+open Librfn.Lemmas.ConsoleDeliver in
+/-- **putchar_delivers_if_drained**: in every reachable state in which the console is not inside a
+    command, if `console_putchar` is called for characters `cs` while at most 15 are outstanding
+    (those already in the ring included), the next scheduler run terminates and the console consumes
+    all of them, in order, each once, and ends waiting with an empty ring.  (Beyond 15 outstanding
+    the ring drops characters: that is the ring's contract, property C05.) -/
+theorem putchar_delivers_if_drained (ops : List Op) (hok : ∀ op ∈ ops, OpOk op) (cs : List Byte) :
+    let w := runOps boot ops
+    w.s.fpt ≠ 2 → cs ≠ [] → w.s.ring.length + cs.length ≤ 15 →
+    let s' := sched w.tab (cs.foldl putchar w.s)
+    s'.stuck = w.s.stuck ∧ s'.ring = [] ∧ s'.fpt = 1 ∧ s'.eaten = w.s.eaten ++ w.s.ring ++ cs := by
+  intro w hf hne hroom
+  obtain ⟨named, ht, h⟩ := runOps_dinv ops boot hok _ _ initTable_ok (init_dinv _)
+  have hrl := ringLen_eq
+  obtain ⟨p1, p2, p3, p4, p5⟩ := putchars_room cs w.s (by omega)
+  have hlen : cs.length ≠ 0 := by
+    cases cs with
+    | nil => exact absurd rfl hne
+    | cons c r => simp
+  obtain ⟨_, a2, a3, a4, a5, _, _⟩ := sched_deliver _ w.tab named cmdUnknown (cs.foldl putchar w.s) ht rfl
+    (putchars_dinv _ cs w.s h) (by rw [p3]; exact hf) (p5 hlen)
+  exact ⟨by rw [a5, p4], a2, a3, by rw [a4, p2, p1, List.append_assoc]⟩
+
+open Librfn.Lemmas.ConsoleDeliver in
+/-- **eval_executes_once_and_completes** (the D8 property, now a theorem about the fixed code): in
+    every reachable state with the console waiting and the ring drained, `console_eval` of any
+    NUL-free string — any number of lines, any length below 65536 (its cursor is a `uint16_t`) —
+    driven as a protothread with the console fibre run in between *completes* within the model's
+    iteration bound, and the console has consumed exactly the characters of the string, in order,
+    each once; so (by `line_is_edit`) every line of it is executed exactly once. -/
+theorem eval_executes_once_and_completes (ops : List Op) (hok : ∀ op ∈ ops, OpOk op) (str : List Byte)
+    (hnz : ∀ b ∈ str, b ≠ 0) (hlen : str.length < 65536) :
+    let w := runOps boot ops
+    w.s.fpt ≠ 2 → w.s.ring = [] →
+    ∃ k, (eval w.tab str w.s).2 = some k ∧ (eval w.tab str w.s).1.stuck = w.s.stuck ∧
+      (eval w.tab str w.s).1.ring = [] ∧ (eval w.tab str w.s).1.fpt = 1 ∧
+      (eval w.tab str w.s).1.eaten = w.s.eaten ++ str := by
+  intro w hf hring
+  obtain ⟨named, ht, h⟩ := runOps_dinv ops boot hok _ _ initTable_ok (init_dinv _)
+  obtain ⟨k, a1, _, a3, a4, a5, a6⟩ := eval_deliver _ w.tab named cmdUnknown str w.s ht rfl hnz hlen h hf hring
+  exact ⟨k, a1, a6, a3, a4, a5⟩
+
+set_option maxRecDepth 100000 in
+/-- the D8 witness on the model of the fixed code: three lines, 18 characters, two resumptions; each
+    line is handed to the tokeniser once -/
+example : let r := eval (registerAll initTable [⟨some [99], .script 0 0 false false⟩]) [99, 32, 97, 10, 99, 32, 98, 10, 99, 32, 99, 10, 99, 32, 100, 10, 99, 10] init
+    r.2 = some 2 ∧ r.1.lines = [[99, 32, 97], [99, 32, 98], [99, 32, 99], [99, 32, 100], [99]] ∧ r.1.stuck = false := by decide
 
 end Librfn.C15
